@@ -75,6 +75,8 @@ def run(ctx):
     # (2b) TLC's deadlock counterexample of instance D driven into the real bus with hook gates
     dl = goenv.run_harness(ctx, PKG, "^TestVerifC15SubscribeDeadlock$", timeout=300)
     div += classify_mismatches(ctx, dl, "deadlock")
+    cc = goenv.run_harness(ctx, PKG, "^TestVerifC15CloseUnderContention$", timeout=300)
+    div += classify_mismatches(ctx, cc, "close-contention")
     if design_deadlock and not dl["mismatches"]:
         ctx.notes.append("instance D deadlocks in the model but the real bus did not reproduce it in 5 gated attempts")
 
@@ -102,7 +104,7 @@ def run(ctx):
     cov = evidence.mc_coverage(
         states, trans, accepted, res.get("samples") or [], exhaustive=True,
         checker_cmd="tlc C15_MC.tla (instances %s, deadlock check on); tlc C15_Trace.tla on recorded traces" % ",".join(insts),
-        mc_instances=mc, deadlock_counterexample_attempts=dl["replayed"], scenarios_run=res["replayed"], events_recorded=res["steps"],
+        mc_instances=mc, deadlock_counterexample_attempts=dl["replayed"], close_contention_scenarios=cc["replayed"], scenarios_run=res["replayed"], events_recorded=res["steps"],
         distinct_scenarios_with_delivery=res["distinct"], traces_recorded=len(traces), traces_accepted=accepted,
         traces_rejected=len(rejected), trace_states=tstates, divergences_L2=div, notes=ctx.notes[:10], rule=res.get("rule"))
     return {"level": "model_checking", "coverage": cov, "assumptions": [
